@@ -261,3 +261,54 @@ func TestC19(t *testing.T) {
 		Col.Case(p.Hash(), p.Compact, nt, labels, excluded)
 	})
 }
+
+func genFailPlan(t *rapid.T) []bool {
+	switch pick(t, "failpattern", 35, 25, 20, 20) {
+	case 0:
+		return nil
+	case 1: // single
+		plan := make([]bool, rapid.IntRange(1, 6).Draw(t, "failat"))
+		plan[len(plan)-1] = true
+		return plan
+	case 2: // repeated burst
+		at := rapid.IntRange(0, 4).Draw(t, "burstat")
+		k := rapid.IntRange(2, 4).Draw(t, "burstlen")
+		plan := make([]bool, at+k)
+		for i := at; i < at+k; i++ {
+			plan[i] = true
+		}
+		return plan
+	default: // alternating
+		n := rapid.IntRange(2, 8).Draw(t, "altlen")
+		plan := make([]bool, n)
+		for i := 0; i < n; i += 2 {
+			plan[i] = true
+		}
+		return plan
+	}
+}
+
+func TestC13(t *testing.T) {
+	spec := &GenSpec{Prop: "C13", Backings: []string{"ll"}, MaxOps: 35, Holds: true, Merge: true, Children: exclChildren("C13"), NoRecreate: true}
+	applyExclusions(spec)
+	Col.SetProp("C13", "collection over an application lower level (immutable ordered-map snapshots with children) updated by the documented protocol (iterate `higher` with IncludeDeletions+SkipLowerLevel; Set/Del applied; Merge resolved by higher.Get); programs of Set/Del/Merge batches with merger cycles, held / released updates and generated LowerLevelUpdate failure plans (single, burst, alternating), CachePersisted on/off; 20% of the cases free-running with MaxDirtyOps / MaxDirtyKeyValBytes back-pressure. Checked: collection == reference after every op; lower level == reference prefix after every completed update (exactly the prefix handed down); after a failed update the next call offers exactly the same entries; every successful update leaves a batch-prefix state and never goes back; after draining the lower level == full reference; moss never reads a lower-level snapshot it has closed. Non-trivial: >= 2 successful updates and (a failed update in between or a batch executed while an update was parked), or a free-running case with a failure. Distinct = distinct program hash.")
+	rapid.Check(t, func(rt *rapid.T) {
+		p, excluded := genHistory(rt, spec)
+		x := C13Extra{FailPlan: genFailPlan(rt)}
+		if chance(rt, "free", 20) {
+			x.Free = true
+			p.Cfg.MaxDirtyOps = rapid.SampledFrom([]uint64{0, 1, 3, 10}).Draw(rt, "maxDirtyOps")
+			p.Cfg.MaxDirtyBytes = rapid.SampledFrom([]uint64{0, 8, 64}).Draw(rt, "maxDirtyBytes")
+		}
+		b, _ := json.Marshal(&x)
+		p.Extra = b
+		h := RunC13(rt, p)
+		nt := false
+		if x.Free {
+			nt = h.LL.Fails > 0 && h.LL.Updates >= 2
+		} else {
+			nt = h.LL.Updates >= 3 && (h.Labels["failed-update"] > 0 || h.Labels["read-while-persister-held"] > 0)
+		}
+		Col.Case(p.Hash(), p.Compact, nt, h.Labels, excluded)
+	})
+}
